@@ -7,7 +7,7 @@ Configs == [initial : {"EQUIPMENT_OFFLINE", "ATTEMPT_ONLINE", "HOST_OFFLINE", "O
 Init == /\ cfg \in Configs /\ st = Start(cfg.initial, cfg.sub) /\ inp = [k |-> "Init"]
         /\ out = O(<<>>, <<>>, FALSE, FALSE, Start(cfg.initial, cfg.sub).ctl)
 Step(i) == LET e == Eff(st, i) IN st' = e.s /\ out' = e.out /\ inp' = i /\ UNCHANGED cfg
-DoStep == \E i \in Inputs : Step(i)
+DoStep == \E i \in Inputs : Enabled(st, i) /\ Step(i)
 Next == DoStep
 Spec == Init /\ [][Next]_vars
 View == <<cfg, st>>
@@ -19,6 +19,9 @@ SubRemembered == Online(st) => st.ctl = OnlineOf(st.sub)
 (* a collection event is reported only on the transition it belongs to                              *)
 CeOnlyOnTransition == [][out'.ces # <<>> => st'.ctl # st.ctl]_vars
 OnlineOnlyViaProbeOrHost == [][(~Online(st) /\ Online(st')) =>
-                                  ((inp'.k = "OpOnline" /\ inp'.probe = "ok") \/ inp'.k = "S1F17")]_vars
+                                  ((inp'.k \in {"OpOnline", "ProbeResult"} /\ inp'.probe = "ok") \/ inp'.k = "S1F17")]_vars
+(* in ATTEMPT_ONLINE nothing but the probe's outcome changes the control state, S1F17 is refused with ONLACK 1  *)
+AttemptOnlyEndsByProbe == [][(st.ctl = "ATTEMPT_ONLINE" /\ st'.ctl # "ATTEMPT_ONLINE") => inp'.k = "ProbeResult"]_vars
+AttemptRefusesHost == [][(st.ctl = "ATTEMPT_ONLINE" /\ inp'.k = "S1F17") => out'.reply = <<[f |-> 18, ack |-> 1]>>]_vars
 RefusedChangesNothing == [][out'.raised => st' = st]_vars
 =============================================================================
